@@ -164,7 +164,8 @@ func (g *gen) strSafeNumber() string {
 	return "i64:7"
 }
 
-var strPool = []string{"s:", "s:61", "s:6162", "s:3132", "s:c3a9", "s:756e646566696e6564", "s:312e35"}
+var strPool = []string{"s:", "s:61", "s:6162", "s:3132", "s:c3a9", "s:756e646566696e6564", "s:312e35",
+	"s16:0041", "s16:00e90062", "s16:d83dde00", "s16:0061d83dde000062", "s16:d800", "s16:0031de00"} // s16: held as []uint16
 
 func (g *gen) prim(strSafe bool) string {
 	switch g.r.Intn(7) {
@@ -423,6 +424,18 @@ func (g *gen) mapHistory() string {
 	is := "-"
 	if len(init) > 0 {
 		is = strings.Join(init, ",")
+	} else if g.r.Chance(40) {
+		is = "nil" // a nil Go map: Go-side writes are impossible
+		var keep []string
+		for _, o := range ops {
+			if !strings.HasPrefix(o, "gw:") {
+				keep = append(keep, o)
+			}
+		}
+		if len(keep) == 0 {
+			keep = []string{"jr:a"}
+		}
+		ops = keep
 	}
 	return fmt.Sprintf("map %s %s %s", et, is, strings.Join(ops, ";"))
 }
